@@ -18,6 +18,7 @@ Everything else — the validator (any function of call ordinal and value), the
 handlers and their order, the history — is universally quantified.
 -/
 import TraitsVerif.Lemmas.AttrMore
+import TraitsVerif.Lemmas.AttrSourceSet
 namespace TraitsVerif.Props.C02
 open TraitsVerif TraitsVerif.Model.Attr
 
@@ -52,6 +53,84 @@ theorem flags_tie (m : CMode) (o p : Bool) :
     ∧ testFlag (mkFlags m o p) Generated.TRAIT_POST_SETATTR_ORIGINAL_VALUE = p
     ∧ comparisonModeInt (mkFlags m o p) = m.toNat :=
   ⟨testFlag_none m o p, testFlag_orig m o p, testFlag_postOrig m o p, comparisonModeInt_mkFlags m o p⟩
+
+/-! ### The model is the source
+
+`Generated/AttrProg.lean` is the *source text* of the attribute functions of
+ctraits.c, translated on every run by `harness/translate/cattr.py` into the
+deep-embedded language `Model/MiniC.lean`.  The theorems below say that the
+hand-written model functions are the interpretation of those terms: for every
+object state, assigned value, validator, `post_setattr` hook, default factory and
+handler behaviour (`C : MiniC.IC` carries the environment `E` and the trait `t`),
+whether or not `obj->obj_dict` / `obj->itrait_dict` exist yet (`dn`, `idn`).
+The exactly-once / truthful / silent theorems further down are about these
+model functions, hence about the interpreted source for the functions tied here. -/
+
+open TraitsVerif.Model.MiniC in
+/-- The macro `has_notifiers(tnotifiers, onotifiers)` computes the model's `hasNotifiers`. -/
+theorem C02_has_notifiers_is_source (C : IC) (s : OSt) (dn idn : Bool) (tn on : Option (List Notifier)) (l1 l2 : Loc) :
+    call C Generated.AttrProg.has_notifiers [nlv tn l1, nlv on l2] s dn idn
+      = (.int (if hasNotifiers tn on then 1 else 0), s, none) :=
+  Lemmas.AttrSource.has_notifiers_is_source C s dn idn tn on l1 l2
+
+open TraitsVerif.Model.MiniC in
+/-- `setattrEvent` is the interpretation of the source of `setattr_event`
+(validate, then notify with old = Undefined; `del` does nothing). -/
+theorem C02_setattr_event_is_source (C : IC) (value : Option Id) (s : OSt) (dn idn : Bool) :
+    call C Generated.AttrProg.setattr_event [.trait, .trait, .self, .name, ofValue value] s dn idn
+      = ofInt (setattrEvent C.E C.t value s) :=
+  Lemmas.AttrSource.setattr_event_is_source C value s dn idn
+
+open TraitsVerif.Model.MiniC in
+/-- `getattrTrait` is the interpretation of the source of `getattr_trait`: the
+default is computed, stored, `post_setattr`'d and announced with
+old = Uninitialized, in this order; every error exit leaves what was done. -/
+theorem C02_getattr_is_source (C : IC) (s : OSt) (dn idn : Bool) :
+    call C Generated.AttrProg.getattr_trait [.trait, .self, .name] s dn idn = ofPtr (getattrTrait C.E C.t s) :=
+  Lemmas.AttrSource.getattr_trait_is_source C s dn idn
+
+open TraitsVerif.Model.MiniC in
+/-- `has_traits_setattro`: instance trait first, class trait otherwise, then the
+selected trait's `setattr(trait, trait, obj, name, value)`, whose result is returned. -/
+theorem C02_setattro_is_source (C : IC) (value : Option Id) (s : OSt) (dn idn : Bool) :
+    call C Generated.AttrProg.has_traits_setattro [.self, .name, ofValue value] s dn idn
+      = ofInt (traitSetattr C.E C.t value s) :=
+  Lemmas.AttrSource.has_traits_setattro_is_source C value s dn idn
+
+open TraitsVerif.Model.MiniC in
+/-- `getattro` is the interpretation of `has_traits_getattro`: the `__dict__`
+short cut first, the selected trait's `getattr` otherwise. -/
+theorem C02_getattro_is_source (C : IC) (s : OSt) (dn idn : Bool) (hdn : dn = true → s.slot = none) :
+    call C Generated.AttrProg.has_traits_getattro [.self, .name] s dn idn = ofPtr (getattro C.E C.t s) :=
+  Lemmas.AttrSource.has_traits_getattro_is_source C s dn idn hdn
+
+open TraitsVerif.Model.MiniC in
+/-- `setattr_trait`, the two paths on which nobody is told anything — PARTIAL: a
+rejected assignment (the validator's exception, -1, nothing stored, nothing
+called) and `del` of an absent value.  The remaining paths of `setattr_trait`
+(fetch old / compare / store / post_setattr / notify; 246 leaves under the
+present proof method) are covered by `C02_skeleton_pinned` and by the
+correspondence run only. -/
+theorem C02_setattr_trait_silent_paths_are_source_partial (C : IC) (s : OSt) (dn idn : Bool) :
+    (s.slot = none →
+      call C Generated.AttrProg.setattr_trait [.trait, .trait, .self, .name, .null] s dn idn
+        = ofInt (setattrTrait C.E C.t none s))
+    ∧ (∀ (v : Id) (k : Nat) (e : Exc), C.t.validate = some k → v ≠ undef →
+        C.E.validate k s.ctx.nval v = .error e →
+        call C Generated.AttrProg.setattr_trait [.trait, .trait, .self, .name, .obj v] s dn idn
+          = ofInt (setattrTrait C.E C.t (some v) s)) :=
+  ⟨Lemmas.AttrSource.setattr_trait_del_absent C s dn idn,
+   fun v k e h1 h2 h3 => Lemmas.AttrSource.setattr_trait_rejected C s dn idn v k e h1 h2 h3⟩
+
+/-- Tripwire for the two functions whose translated skeleton is not (fully)
+proved equal to the model: the MiniC terms of `setattr_trait` and
+`call_notifiers` are the ones `Model/SetAttr.lean` was transcribed from (digest
+of the generated term; local renamings and comments do not change it, any change
+of statements, operators, operands, call arguments or their order does). -/
+theorem C02_skeleton_pinned :
+    Generated.AttrProg.setattr_trait_digest = "53c63c1af634cae3c9128c050efc887d"
+    ∧ Generated.AttrProg.call_notifiers_digest = "0f96e1469026ab4f9c706644bf391c67" := by
+  decide
 
 /-! ### Exactly once -/
 
